@@ -48,6 +48,16 @@ TABLE = {
  "C15-d": ("C15", "akai/file_entry.py is_table_end: raw read(2) lets SectorReadError escape", "a truncated image whose directory sector lies behind sample data, cut before the end of that directory"),
  "C16-d": ("C16", "akai/sample.py: active loops kept as a one-pass filter() iterator (same change as C20-c, found independently)", "two operations touching one looped sample on the same opened image"),
  "C18-c": ("C18", "akai/data_types.py build_akai_tune_cents: cents folded with (x - X1) % 100 + X1", "tuning byte 0x7F (+50.0 cents) re-encodes as 0x80"),
+ "C01-e": ("C01", "structural.py combine_stereo_routine: 'pairs.reverse' without call parentheses - the halves stay in directory order", "an L/R pair whose -R entry precedes its -L entry in the file table"),
+ "C02-e": ("C02", "roland fat.py get_file: cache of cluster lists keyed by the first cluster only, cluster_top applied on the cache miss", "two samples sharing one cluster chain with different cluster_top"),
+ "C05-e": ("C05", "transcoder.py decode_frame: chunk trimmed to the DESTINATION frame size", "a merged L/R pair with an odd number of frames (last frame of both channels lost)"),
+ "C07-e": ("C07", "util/fat.py get_path: class-level cache start sector -> chain, shared by every table in the process", "a second table with a different chain starting at an already resolved sector"),
+ "C11-d": ("C11", "util/sector.py _read_sector: one-entry sector cache declared in the class body, keyed by the address in the parent stream", "two partitions: back-to-back fetches of the same partition-relative sector by streams of different partitions"),
+ "C13-e": ("C13", "transcoder.py PassthroughTranscoder: a block of zeros instead of StopIteration on SectorReadError (the cursor never passes the bad sector)", "export of a truncated image with a mono sample whose chain runs into the missing part: memory without bound"),
+ "C14-e": ("C14", "roland fat.py get_file: chain re-walked from sector_list[cluster_offset] (IndexError for an out-of-chain cluster_top, swallowed one level up)", "a sample's cluster_top damaged to a value beyond its chain, a sibling referenced by the same partial only"),
+ "C15-e": ("C15", "transcoder.py: SectorReadError caught per stream in decode_frame (break) - the failing channel is missing instead of empty", "a truncated image, cut inside the data of the second stream of an L/R pair"),
+ "C16-e": ("C16", "structural.py Traversable.set_routines resets _children (a stale _elem_parent in the shared parse context re-parents re-parsed performances)", "a Roland image object reused: export after an operation that realised a performance's patches"),
+ "C18-d": ("C18", "akai_string.py _char_format_convert_byte: 'if not resulting_symbol' - code 0x00 (the digit '0') counts as no mapping", "encoding the digit '0' (ASCII to AKAI)"),
  "C03-d": ("C03", "actions.py parse_text_file: readlines(0x2000) - the text probe returns only the first 8 KiB of lines", "a cue sheet longer than 8 KiB (about 70 tracks with TITLE and two INDEX lines)"),
  "C04-d": ("C04", "generalized/wav.py: a single little-endian mono stream is copied in 64 KiB blocks instead of going through the transcoder (no whole-frame trim)", "a mono sample whose file-table entry size ends inside a 16-bit word of the data"),
  "C06-d": ("C06", "structural.py make_export_name: the blanks before a dropped trailing dot are no longer stripped", "a directory-level name with a blank before a trailing dot ('DRUMS .')"),
@@ -101,6 +111,9 @@ HISTORY = {
  "C11-b": "missed by the first version of C11 (no second request for a chain during a schedule); caught after the Roland target lists other performances sharing samples, preferring cluster_top > 0",
  "C16-c": "missed by the first version of C16 (plain names, one partition); caught after the images got a file and a directory of different branches with the same raw name ending in '-'",
  "C19-b": "would have been missed (signals without silence); caught after adding impulse / burst-silence / silence-burst signals",
+ "C02-e": "missed by the first version of C02 (RolandImage.tla required the chains of different samples to be disjoint); caught after NewSharedSample (a sample in an earlier sample's chain behind a different leading-cluster offset) and a vacuity guard",
+ "C13-e": "missed by the first version of C13 for two reasons: no truncated images among the damaged inputs, and the probe swallowed MemoryError as an ordinary error of the tool; caught after truncations of the base images and of a four-sector mono sample were added and MemoryError propagates to the resource verdict",
+ "C18-d": "first run ended with exit 2 (the harness did not expect InvalidCharacter when encoding a valid character back); exceptions of the tool are verdicts now",
  "C03-d": "missed by the first version of C03 (sheets of at most 3 tracks, a few hundred bytes); caught after the 99-track sheet and sheets with 200 / 2500 remarks were added (Cue.tla Dense / Repeats, evaluated by TLC with a deep Java stack)",
  "C17-d": "missed by the first version of C17 for the same reason as C03-d; caught by the same long sheets (check_image goes through the tool's own text probe)",
  "C04-d": "missed by the first version of C04 (every generated entry size is header + 2 x words); caught after entries whose size ends inside a 16-bit word were added",
